@@ -5,7 +5,7 @@ import subprocess
 
 CLAIMED = {
  'C01': dict(engine='pipeline', cat='model_checking', ref='DESIGN.md section 6 C01',
-   text='TLC enumerates every API program up to depth 2 (one rich + reduced operations, all slice forms at depth 1) as a state machine (Pipeline.tla), checks the implementation-shaped model against the eager reference for each, every enumerated program (quick: all depth-1, a seeded sample of depth-2 plus everything the model flags; thorough: all) is executed on the real library and the recorded observation is judged by TLC (PipelineTrace.tla): iteration = reference, second iteration identical. Deep random programs (depth 3-7) are validated code->spec the same way.',
+   text='TLC enumerates every API program up to depth 2 (one rich + reduced operations, all slice forms at depth 1) as a state machine (Pipeline.tla), checks the implementation-shaped model against the eager reference for each, every enumerated program (quick: all depth-1, a seeded sample of depth-2 plus everything the model flags; thorough: all) is executed on the real library and the recorded observation is judged by TLC (PipelineTrace.tla): iteration = reference, second iteration identical. Deep random programs (depth 3-7, incl. ds.apply(g, lazy)) are validated code->spec the same way. Pipelines consumed through a worker pool (prefetch / parallel map with 2-3 workers on top of random pipelines, 1.5k quick / 40k thorough) are iterated twice under seeded schedules of the REAL threads with every source line of lazy_dataset/core.py a scheduling point (the workers share the dataset object) and judged like any other observation.',
    note='Trusted: TLC; the Python twins of the user-function catalogue; harness/build.py (term -> API calls). Bounded: sources of 0..4 examples, catalogue of specs/Pipeline.tla.',
    tech='TLA+ state machine over API programs, TLC BFS + trace validation of real observations'),
  'C02': dict(engine='pipeline', cat='model_checking', ref='DESIGN.md section 6 C02',
@@ -17,8 +17,8 @@ CLAIMED = {
    note='As C01. "raises a lookup error" is checked as "raises, never returns a value"; the exception class is recorded as conformance data only.',
    tech='TLA+ state machine over API programs, TLC BFS + trace validation of real observations'),
  'C04': dict(engine='conc', cat='model_checking', ref='DESIGN.md section 6 C04',
-   text='TLC explores every interleaving of the implementation-shaped specs SingleThreadPrefetch.tla (worker/consumer, one action per access to the queue, the shutdown flag, exc_info) and PoolMap.tla (generator thread + pool threads, every completion order) for all configurations up to n=3 (thorough 4): order/exactly-once/completeness invariants. Bound to the code both ways: a transition cover of TLC\'s state graphs is replayed on the REAL threads under a controlled scheduler (unmodified parallel_utils, shims + sys.settrace on closure-cell lines) and the real code\'s own schedules are explored by stateless DFS (exhaustive for small configurations) and seeded random schedules; every recorded event log is validated by TLC against the spec actions (field by field) and judged by the property verdicts. Dataset level (ds.prefetch / ds.map(num_workers), catch_filter_exception) likewise under the scheduler; the four process back ends are sampled with real OS scheduling.',
-   note='Trusted: TLC; harness/detsched.py shim executor as a model of concurrent.futures.ThreadPoolExecutor; scheduling points = shim ops + user code + lines touching shutdown/exc_info. Process back ends: sampling only.',
+   text='TLC explores every interleaving of the implementation-shaped specs SingleThreadPrefetch.tla (worker/consumer, one action per access to the queue, the shutdown flag, exc_info) and PoolMap.tla (generator thread + pool threads, every completion order) for all configurations up to n=3 (thorough 4): order/exactly-once/completeness invariants. Bound to the code both ways: a transition cover of TLC\'s state graphs is replayed on the REAL threads under a controlled scheduler (unmodified parallel_utils, shims + sys.settrace on closure-cell lines) and the real code\'s own schedules are explored by stateless DFS (exhaustive for small configurations) and seeded random schedules; every recorded event log is validated by TLC against the spec actions (field by field) and judged by the property verdicts. Dataset level (ds.prefetch / ds.map(num_workers), catch_filter_exception) likewise under the scheduler; pool workers over STRUCTURED pipelines they share (random API terms, failing functions, catch_filter_exception) with every source line of core.py and parallel_utils.py a scheduling point; the four process back ends are sampled with real OS scheduling.',
+   note='Trusted: TLC; harness/detsched.py shim executor as a model of concurrent.futures.ThreadPoolExecutor; scheduling points = shim ops + user code + lines touching shutdown/exc_info (spec-guided replays, DFS) or every source line of parallel_utils.py / core.py (random schedules). Process back ends: sampling only.',
    tech='TLA+ specs of the thread protocols, TLC model checking + transition-cover replay + trace validation under a controlled scheduler'),
  'C05': dict(engine='conc', cat='model_checking', ref='DESIGN.md section 6 C05',
    text='Same machinery as C04. Design level: NoDeadlock invariant, termination under weak fairness, "control is back only after every background thread exited", "nothing pending after terminate()"; vacuity scenario: with the sentinel guard removed TLC must find the documented buffer_size=1 deadlock. Code level: under the controlled scheduler deadlock is exact (no enabled thread), thread liveness and user code after return are read from the event log; every consumer stop point (exhaustion, close after k, throw) x source end/failure.',
@@ -141,7 +141,7 @@ def main():
              'kind_free_text': 'Bucket.tla / BucketTrace.tla + harness/check_bucket.py'},
             {'name': 'conc', 'path': '/verif/specs/SingleThreadPrefetch.tla',
              'serves_properties': ['C04', 'C05', 'C06', 'C07'],
-             'kind_free_text': 'TLA+ specs SingleThreadPrefetch/PoolMap/PrefetchAbs + trace specs STPTrace/LPMTrace/DSTrace; harness/detsched.py (controlled scheduler over the real threads), conc.py, realpool.py, check_conc.py'},
+             'kind_free_text': 'TLA+ specs SingleThreadPrefetch/PoolMap/PrefetchAbs + trace specs STPTrace/LPMTrace/DSTrace; counting abstractions STPCount/PoolCount (TLC refinement + Apalache inductive invariants, harness/apalache.py); harness/detsched.py (controlled scheduler over the real threads, down to source-line granularity), conc.py, schedobs.py, realpool.py, check_conc.py'},
         ],
         'checks': checks,
         'notes': 'All checks run ./check <id> (bash -> /venv/bin/python -m harness.main); they import lazy_dataset from /repo working tree at run time (pure Python, nothing to build). Genuine defects found are in known_findings.json (fixed ones carry their /repo commit).',
